@@ -120,6 +120,40 @@ def transform_batch(*paths):
             print("replace-seq raised", type(e).__name__)
 
 
+def convert_batch(*paths):
+    """Format conversion of several files in a row in ONE interpreter: table-level reader, fitting to PDB limits,
+    both writers.  What is printed per input is a digest of the written texts (or the exception type)."""
+    import hashlib
+
+    from rnapolis import parser_v2
+
+    for k, path in enumerate(paths):
+        print(f"### {k}")
+        try:
+            text = open(path).read()
+            df = parser_v2.parse_pdb_atoms(text) if path.endswith(".pdb") else parser_v2.parse_cif_atoms(text)
+            print("atoms", len(df))
+        except Exception as e:
+            print("read raised", type(e).__name__)
+            continue
+        try:
+            fitted = parser_v2.fit_to_pdb(df)
+            out = parser_v2.write_pdb(fitted)
+            print("pdb", hashlib.sha256(out.encode()).hexdigest(), out.splitlines()[0][:80] if out else "")
+        except Exception as e:
+            print("pdb raised", type(e).__name__)
+        try:
+            out = parser_v2.write_cif(df)
+            print("cif", hashlib.sha256(out.encode()).hexdigest())
+        except Exception as e:
+            print("cif raised", type(e).__name__)
+        try:
+            out = parser_v2.write_cif(parser_v2.fit_to_pdb(df))
+            print("cif-of-fitted", hashlib.sha256(out.encode()).hexdigest())
+        except Exception as e:
+            print("cif-of-fitted raised", type(e).__name__)
+
+
 def lib3d_batch(*paths):
     from rnapolis.annotator import extract_secondary_structure
     from rnapolis.parser import read_3d_structure
@@ -235,6 +269,8 @@ def main():
         return writecif(*argv)
     if what == "transform_batch":
         return transform_batch(*argv)
+    if what == "convert_batch":
+        return convert_batch(*argv)
     if what == "lib2d_batch":
         return lib2d_batch(*argv)
     if what == "lib3d_batch":
